@@ -8,6 +8,7 @@ Run under python3-vt (z3); the native replay helpers run under /venv/bin/python.
 import argparse
 import importlib
 import json
+import re
 import os
 import sys
 import time
@@ -20,6 +21,17 @@ from pyvc import report as R            # noqa: E402
 from pyvc.harness import run_tasks, repo   # noqa: E402
 
 LOCK = os.path.join(HERE, 'contracts', 'obligations.lock.json')
+
+
+TASKMAP = os.path.join(os.path.dirname(os.path.abspath(__file__)), 'contracts', 'obligations.tasks.json')
+
+
+def load_taskmap():
+    try:
+        with open(TASKMAP) as f:
+            return json.load(f)
+    except (OSError, ValueError):
+        return {}
 
 
 def load_lock():
@@ -76,6 +88,7 @@ def main():
     exit_code = 0
     undecided = []
     violated = False
+    replays_early = []
     for tid, err in errors:
         if 'KeyError' in err and ': not found in ' in err:
             # a function under contract was renamed or removed: its obligations cannot be generated -> undecided
@@ -117,7 +130,7 @@ def main():
     proof_obls = {}
     bounded_obls = {}
     for k, e in by.items():
-        if e['tasks'] and all(t in bounded for t in e['tasks']):
+        if (e['tasks'] and all(t in bounded for t in e['tasks'])) or k.endswith('.native-bounded'):
             bounded_obls[k] = e
         else:
             proof_obls[k] = e
@@ -129,6 +142,14 @@ def main():
         os.makedirs(os.path.dirname(LOCK), exist_ok=True)
         with open(LOCK, 'w') as f:
             json.dump(lock, f, indent=1, sort_keys=True)
+        # which task generates which obligation (used to pick the bounded native stand-in of a task that became undecidable)
+        tm = load_taskmap()
+        tm[prop] = {}
+        for k, e in by.items():
+            for t in e.get('tasks') or []:
+                tm[prop].setdefault(t, []).append(k)
+        with open(TASKMAP, 'w') as f:
+            json.dump(tm, f, indent=1, sort_keys=True)
         rep.say(f'lock updated: {len(lock[prop])} obligations')
     elif not a.only:
         expected = set(lock.get(prop, []))
@@ -137,14 +158,38 @@ def main():
             exit_code = 3
         missing = sorted(expected - set(by.keys()))
         if missing:
-            # an expected obligation is gone: extraction produced fewer obligations (code moved, sidecar stale)
+            # an expected obligation is gone: extraction produced fewer obligations (code moved, sidecar stale, construct
+            # outside the subset).  The verifier cannot decide it any more; the BOUNDED native replay of that obligation stands
+            # in: a concrete failing input on the real code is a violation, none leaves it undecided.
             rep.say(f'UNDECIDED property={prop}: {len(missing)} expected obligation(s) were not generated: {missing[:8]}')
-            undecided.extend(missing)
+            why = {k.rsplit(':', 1)[0]: (by[k]['unknown'][0].get('detail') if by[k].get('unknown') else '') for k in by
+                   if k.endswith(':in-subset') or k.endswith(':in-budget')}
+            tried = 0
+            for k in missing:
+                if re.search(r'\.loop\d+\.inv\d+\.', k) or k.endswith('.mustfail') or tried >= 8:
+                    undecided.append(k)
+                    continue
+                tried += 1
+                try:
+                    res = R.native([os.path.join(HERE, 'native', 'run.py'), prop], {'obligation': k, 'task': None, 'model': {}, 'seed': seed})
+                except Exception as ex:
+                    res = {'error': f'native replay crashed: {ex}'}
+                if res.get('confirmed'):
+                    path = rep.write_replay(k, {'property': prop, 'obligation': k,
+                                                'solver': {'backend': 'none', 'detail': 'obligation could not be generated on this tree; '
+                                                           'bounded native stand-in: ' + json.dumps(why)[:600]},
+                                                'native': res, 'rerun': f'python3-vt check.py {prop}'})
+                    rep.say(f'      obligation {k} could not be generated; bounded native stand-in FAILED: {res.get("detail")}')
+                    rep.violation(path, True)
+                    replays_early.append(path)
+                    violated = True
+                else:
+                    undecided.append(k)
 
     n_obl = len(proof_obls)
     n_dis = 0
     samples = []
-    replays = []
+    replays = list(replays_early)
     for k in sorted(by.keys()):
         e = by[k]
         st = R.status_of(e)
@@ -160,6 +205,25 @@ def main():
             undecided.append(k)
             for u in e['unknown'][:3]:
                 rep.say(f'      {u["status"]}: {u.get("detail", "")}')
+            if (k.endswith(':in-subset') or k.endswith(':in-budget')) and not getattr(mod, 'PARTIAL', False):
+                # the task left the verifier's reach on this tree: its obligations get the bounded native stand-in
+                tid = k.rsplit(':', 1)[0]
+                for ob in [o for o in load_taskmap().get(prop, {}).get(tid, []) if not o.endswith('.mustfail')
+                           and not re.search(r'\.loop\d+\.inv\d+\.', o)][:4]:
+                    try:
+                        res = R.native([os.path.join(HERE, 'native', 'run.py'), prop], {'obligation': ob, 'task': tid, 'model': {}, 'seed': seed})
+                    except Exception as ex:
+                        res = {'error': f'native replay crashed: {ex}'}
+                    if res.get('confirmed'):
+                        path = rep.write_replay(ob, {'property': prop, 'obligation': ob,
+                                                     'solver': {'backend': 'none', 'detail': 'task ' + tid + ' is outside the verifier\'s reach on this '
+                                                                'tree (' + str((e['unknown'][0].get('detail') if e['unknown'] else ''))[:300] + '); bounded native stand-in'},
+                                                     'native': res, 'rerun': f'python3-vt check.py {prop}'})
+                        rep.say(f'      obligation {ob} could not be generated; bounded native stand-in FAILED: {res.get("detail")}')
+                        rep.violation(path, True)
+                        replays.append(path)
+                        violated = True
+                        break
         else:
             # refuted: replay the counterexample on the real code
             rec = e['refuted'][0]
@@ -178,6 +242,13 @@ def main():
                                         'rerun': f'python3-vt check.py {prop} --replay <this file>'})
             rep.say(f'      obligation {k} FAILED; native replay: ' +
                     (f'confirmed: {res.get("detail")}' if confirmed else f'not reproduced ({res.get("detail") or res.get("error")})'))
+            if not confirmed and re.search(r'\.loop\d+\.inv\d+\.', k):
+                # a sidecar loop invariant that no longer holds means the loop was rewritten: the proof is lost, which is not a
+                # violation of the property unless the real code misbehaves (brittle-proof guard)
+                rep.say(f'UNDECIDED property={prop}: loop invariant {k} no longer holds and no failing input was found: the sidecar '
+                        'invariant does not fit the current loop')
+                undecided.append(k)
+                continue
             rep.violation(path, confirmed)
             replays.append(path)
             violated = True
